@@ -7,7 +7,7 @@ import proto, gen, implutil
 
 THEOREMS = ['C17_array', 'C17_anchors', 'C17_range', 'C17_span', 'C17_monotone', 'C17_interp', 'C17_no_cyclepoints']
 RULE = ("(a) EXHAUSTIVE: every alternating peak / decay-midpoint / trough / rise-midpoint placement on arrays of length <= N (consecutive extrema >= 2 samples apart, midpoints "
-        "inclusively inside their flank, with and without midpoints, cyclepoints on the first / last samples); (b) cyclepoints produced by find_extrema / find_zerox on "
+        "inclusively inside their flank, with and without midpoints, cyclepoints on the first / last samples); (a') four directed VERY long arrays (cyclepoints around sample 2^20 and beyond 2^24), judged by a vectorised restatement of the predicate (and against the transcription up to 2^21 samples); results handed out by earlier calls must stay what they were; (b) cyclepoints produced by find_extrema / find_zerox on "
         "generated signals with boundary in {0, 1, 5} (extrema on the last samples, midpoints coinciding with extrema); judge: the Lean predicate phaseJudge (anchors, "
         "range, monotone except the wrap at troughs, finite exactly on the anchor span) on the implementation's output divided by pi/2, tolerance 1e-9; model values within 1e-9; "
         "distinct = distinct cyclepoint sets; non-trivial = at least one peak and one trough")
@@ -18,6 +18,33 @@ EPS = '1/1000000000'
 def regen_slots():
     import slots
     return slots.regenerate()
+
+_KEPT = []
+
+def _judge_long(n, pk, tr, ri, de, pha):
+    """the statement on a VERY long array, vectorised (the Lean judge walks lists; beyond 2^21 samples the Lean model is not run either): anchors, range, finite
+    exactly on the span, monotone except the wrap at troughs"""
+    P = math.pi
+    if len(pha) != n: return 'length %d' % len(pha)
+    pts = sorted(set(list(pk) + list(tr) + list(ri or []) + list(de or [])))
+    first, last = pts[0], pts[-1]
+    if not (np.isnan(pha[:first]).all() and np.isnan(pha[last + 1:]).all()): return 'finite outside the span'
+    seg = pha[first:last + 1]
+    if np.isnan(seg).any(): return 'NaN inside the span'
+    if (np.abs(seg) > P + 1e-9).any(): return 'outside [-pi, pi]'
+    ext = set(pk) | set(tr)
+    for x in (ri or []):
+        if x not in ext and abs(pha[x] + P / 2) > 1e-9: return 'rise midpoint %d has phase %r' % (x, pha[x])
+    for x in (de or []):
+        if x not in ext and abs(pha[x] - P / 2) > 1e-9: return 'decay midpoint %d has phase %r' % (x, pha[x])
+    for x in pk:
+        if abs(pha[x]) > 1e-9: return 'peak %d has phase %r' % (x, pha[x])
+    for x in tr:
+        if abs(abs(pha[x]) - P) > 1e-9: return 'trough %d has phase %r' % (x, pha[x])
+    trs = set(tr)
+    for i in (np.flatnonzero(np.diff(seg) < -1e-9) + first).tolist():
+        if not (i in trs or (i + 1) in trs): return 'phase decreases after sample %d, which is not a trough' % i
+    return None
 
 def _impl(n, pk, tr, ri, de):
     from bycycle.cyclepoints import extrema_interpolated_phase
@@ -41,6 +68,13 @@ def _impl(n, pk, tr, ri, de):
                 pk, tr = list(pk)[::-1], list(tr[1:]) + list(tr[:1])
                 ri = None if ri is None else list(ri)[::-1]; de = None if de is None else list(de[1:]) + list(de[:1])
             pha = extrema_interpolated_phase(sig, mk(pk), mk(tr), None if ri is None else mk(ri), None if de is None else mk(de))
+            # results handed out EARLIER stay what they were (a caller collecting the phases of several channels / epochs of one length)
+            for old_arr, old_copy in _KEPT:
+                if not np.array_equal(old_arr, old_copy, equal_nan=True):
+                    return ['err', 'EarlierResultChanged']
+            if n <= 200000: _KEPT.append((pha, pha.copy()))
+            if len(_KEPT) > 3: _KEPT.pop(0)
+        if n > 200000: return ['okarr', pha]
         return ['ok', [float(x) / (math.pi / 2) for x in pha]]
     except Exception as e:
         return ['err', type(e).__name__]
@@ -96,6 +130,10 @@ def generate(ctx):
                 if mode == 'rand':      # only ONE kind of midpoint supplied
                     cases.append(dict(n=n, pk=pk, tr=tr, ri=ri, de=None)); cases.append(dict(n=n, pk=pk, tr=tr, ri=None, de=de)); cnt += 2
     ctx.notes['exhaustive_scope'] = 'all alternating extrema placements with gaps >= 2 on arrays of length 3..%d x midpoint patterns {none, start, end, middle, random, leading / trailing midpoints outside the outermost extrema} (%d cases)' % (N, cnt)
+    # VERY long recordings (directed): cyclepoints around sample 2^20 (about 17 min at 1 kHz) and beyond 2^24 (index arithmetic in blocks or in single precision)
+    for base in (2 ** 20, 2 ** 24):
+        cases.append(dict(n=base + 40, pk=[base - 40, base - 6, base + 21], tr=[base - 25, base + 5, base + 33], ri=[base - 12, base + 13], de=[base - 33, base - 1, base + 27], long=True))
+        cases.append(dict(n=base + 40, pk=[base - 41, base - 5, base + 20], tr=[base - 24, base + 6, base + 32], ri=None, de=None, long=True))
     from bycycle.cyclepoints import find_extrema, find_zerox
     for i in range(ctx.scale(150, 1500)):
         s = gen.make_signal(ctx.sub_rng(i))
@@ -121,6 +159,8 @@ def evaluate(ctx, cases):
         impl = _impl(c['n'], c['pk'], c['tr'], c['ri'], c['de'])
         impls.append(impl)
         args = '%d %s %s %s %s' % (c['n'], proto.enc_ints(c['pk']), proto.enc_ints(c['tr']), _opt(c['ri']), _opt(c['de']))
+        if c.get('long'):
+            reqs += ['phase.model ' + args if c['n'] <= 2 ** 21 else 'ping', 'ping']; continue
         reqs.append('phase.model ' + args)
         if impl[0] == 'ok':
             reqs.append('phase.judge %s %s %s' % (args, proto.enc_list(impl[1]), EPS))
@@ -131,6 +171,21 @@ def evaluate(ctx, cases):
     tol = Fraction(1, 10**9)
     for i, c in enumerate(cases):
         model, verdict, impl = ans[2 * i], ans[2 * i + 1], impls[i]
+        if c.get('long'):
+            if impl[0] != 'okarr':
+                judge_ok = corr_ok = False; info = dict(impl=impl)
+            else:
+                pha = impl[1]
+                why = _judge_long(c['n'], c['pk'], c['tr'], c['ri'], c['de'], pha)
+                judge_ok = why is None; corr_ok = True; info = {} if why is None else dict(judge=why)
+                if isinstance(model, list) and model and model[0] == 'ok':       # (up to 2^21 samples the transcription is evaluated as well)
+                    pts = sorted(set(c['pk'] + c['tr'] + (c['ri'] or []) + (c['de'] or [])))
+                    lo_, hi_ = pts[0] - 3, pts[-1] + 4
+                    corr_ok = len(model[1]) == len(pha) and all((a == 'nan' and b != b) or (a != 'nan' and b == b and abs(Fraction(a) - Fraction(float(b) / (math.pi / 2))) <= tol)
+                                                               for a, b in zip(model[1][lo_:hi_], pha[lo_:hi_].tolist()))
+                    if not corr_ok: info['model'] = 'differs from the transcription around the cyclepoints'
+            ctx.hist('midpoints', 'long array')
+            out.append(Result(c, judge_ok=judge_ok, corr_ok=corr_ok, sig=repr(sorted(c.items())), nontrivial=True, info=info)); continue
         if impl[0] == 'err':
             judge_ok = False; corr_ok = model[0] == 'err'
             info = dict(impl=impl, model=model[:1])
